@@ -573,6 +573,9 @@ pub struct VState {
     pub tail_bound: Option<usize>,
     /// harness bound: stubs emit no non-fatal errors (keeps deep driver harnesses tractable)
     pub quiet: bool,
+    /// harness switch: a failing stub may leave NO failure behind (a child that breaks the "a failed parser
+    /// leaves a pending error" rule; only the entry points, which must cope with it, are proved against it)
+    pub silent_fail: bool,
     /// ghost: length of the inner input of a nested parse
     pub len2: usize,
     /// ghost: a log shared by every clone of this state (for sub-parsers that run on a cloned state)
@@ -592,6 +595,7 @@ impl VState {
             flag: [false; 4],
             tail_bound: None,
             quiet: false,
+            silent_fail: false,
             len2: 0,
             ext: core::ptr::null_mut(),
         }
@@ -849,7 +853,7 @@ where
         inp.emit(None, Er::mk(base + 1, entry, newpos));
     }
     let out = ch::any_u16();
-    let offered = if kind == 2 { true } else { ok_offers && ch::any_bool() };
+    let offered = if kind == 2 { !(inp.state.silent_fail && ch::any_bool()) } else { ok_offers && ch::any_bool() };
     let mut fail_pos = 0;
     let mut fail_id = 0;
     if offered {
